@@ -56,6 +56,11 @@ type fmt struct {
 
 func (f *fmt) clearflags() {
 	f.fmtFlags = fmtFlags{}
+	// The numbers too (like fmt since Go 1.21): Width() and Precision()
+	// report them to Formatters even when they are not present, and
+	// the printer is recycled through a pool.
+	f.wid = 0
+	f.prec = 0
 }
 
 func (f *fmt) init(buf *buffer) {
